@@ -158,6 +158,15 @@ def run_case(case, rec, mon=None):
         else:
             want = expect[:, 0] if expect.shape[1] == 1 else expect
             f = io.BytesIO(hdr + stream)
+            if case["idx"] % 7 == 3:
+                # the stream is a real file that has no path name (an anonymous temporary file: its .name is a descriptor number)
+                import tempfile
+
+                f = tempfile.TemporaryFile()
+                f.write(hdr + stream)
+                f.seek(0)
+                info = dict(info, access="temporary_file_without_a_name")
+                rec.count("streams_that_are_real_files_without_a_path_name")
             mon.register(f, expected=np.ascontiguousarray(want), info=info)
             with warnings.catch_warnings():
                 warnings.simplefilter("ignore")
@@ -165,6 +174,8 @@ def run_case(case, rec, mon=None):
                     U.read_signal(f, force_as="sph")
                 except Exception:
                     pass
+            if not isinstance(f, io.BytesIO):
+                f.close()
             if ftype == M.TYPE_AU2:
                 # the samples such a stream encodes are mu-law bytes: asked for with a one-byte dtype they come back as
                 # they are (0x7F and 0xFF both expand to 0, so the 16-bit comparison cannot tell them apart)
